@@ -209,7 +209,7 @@ def _build_driver(b):
     ex = os.path.join(COQ, "extract")
     drv = os.path.join(ex, "driver")
     srcs = [os.path.join(COQ, f[:-2] + ".vo") for f in coqproject_files()
-            if (f.startswith("model/") or f.startswith("gen/")) and f not in ("model/PyMini.v", "gen/PySrc.v", "gen/PySrcIO.v")]
+            if (f.startswith("model/") or f.startswith("gen/")) and f not in ("model/PyMini.v", "gen/PySrc.v", "gen/PySrcIO.v", "gen/Src_reader_un.v", "gen/ReaderTie.v")]
     missing = [s for s in srcs if not os.path.exists(s)]
     if missing:
         b.log += "\ndriver: model objects missing: %s\n" % missing
